@@ -370,13 +370,44 @@ def _classify_site(P: Project, f: FunctionInfo, ty: SetTyping, it: ast.AST, node
                 return f"drives the loop body `{stmt_text(st, 60)}` whose effect may depend on order"
         return None
     if kind == "next-iter":
-        # dominated by a guard that the set has exactly one element
+        # dominated by a guard that rejects the set unless it has exactly one element
         name = norm(it)
         fn = f.node
+        from ..util import truth_table
         for g in walk_no_nested(fn):
-            if isinstance(g, ast.If) and f"len({name})" in norm(g.test) and ("!= 1" in norm(g.test) or "== 1" in norm(g.test)) and g.lineno <= node.lineno:
-                if any(isinstance(s, (ast.Raise, ast.Continue, ast.Return)) for s in g.body) or "== 1" in norm(g.test):
+            if not (isinstance(g, ast.If) and g.lineno <= node.lineno and any(isinstance(s, (ast.Raise, ast.Continue, ast.Return)) for s in g.body)):
+                continue
+            target_ne, target_eq = f"len({name}) != 1", f"len({name}) == 1"
+            leaves: List[str] = []
+
+            def collect(e):
+                if isinstance(e, ast.BoolOp):
+                    for v in e.values:
+                        collect(v)
+                elif isinstance(e, ast.UnaryOp) and isinstance(e.op, ast.Not):
+                    collect(e.operand)
+                else:
+                    t_ = norm(e)
+                    t_ = target_ne if t_ == target_eq else t_
+                    if t_ not in leaves:
+                        leaves.append(t_)
+            collect(g.test)
+            if target_ne not in leaves:
+                continue
+
+            def atom(e, _leaves=leaves):
+                t_ = norm(e)
+                if t_ == target_eq:
+                    return (_leaves.index(target_ne), False)
+                return (_leaves.index(t_), True) if t_ in _leaves else None
+            tt = truth_table(g.test, atom, len(leaves))
+            if isinstance(tt, tuple):
+                import itertools as _it
+                k = leaves.index(target_ne)
+                # the guard must exit whenever len(name) != 1, whatever the other conditions are
+                if all(res for env, res in zip(_it.product([False, True], repeat=len(leaves)), tt) if env[k]):
                     return None
+                return f"picks an arbitrary element: the guard `{norm(g.test)[:70]}` does not reject every case with len({name}) != 1"
         return "picks an arbitrary element (no `len(...) == 1` guard)"
     if kind in ("list", "tuple", "enumerate", "dict.fromkeys", "itertools.chain", "join", "star-args") or kind in ORDERED_CTORS:
         if isinstance(par, ast.Call) and (dotted(par.func) or "") in ORDER_FREE_CONSUMERS:
@@ -400,6 +431,9 @@ def _base_name(t: ast.AST) -> Optional[str]:
     return t.id if isinstance(t, ast.Name) else None
 
 
+STATE_LIKE = ("_state", "state", "_metadata", "_spec", "_context", "encoder_state", "model_spec")
+
+
 def protected_functions(P: Project) -> List[Tuple[FunctionInfo, List[str]]]:
     """Functions whose leading data parameter is caller-owned."""
     out = []
@@ -409,9 +443,8 @@ def protected_functions(P: Project) -> List[Tuple[FunctionInfo, List[str]]]:
         mod = f.module.name
         ps = [p for p in param_names(f.node) if not p.startswith("*")]
         if mod.startswith("formulaic.transforms") and ps and ps[0] not in ("self", "cls"):
-            roots = [ps[0]]
-            if f.name == "encoder" or f.qualname.endswith(".wrapped") or f.qualname.endswith(".wrapper"):
-                roots = [ps[0]]
+            # every argument of a transform may be a caller-owned mutable (data column, knots list, scores, contrast spec, …)
+            roots = [p for p in ps if p not in STATE_LIKE]
             out.append((f, roots))
         elif mod == "formulaic.utils.null_handling" and ps:
             out.append((f, [ps[0]]))
@@ -732,4 +765,36 @@ def r6(ctx):
                     ctx.fail("C18.R6", f"ModelSpec.{name} does not mutate the spec's state", m.module.line(x), ctx.construct(m, x), f"`{t[:80]}` mutates a frozen spec's state")
 
 
-RULES = [("C18.R1", r1), ("C18.R2", r2), ("C18.R3", r3), ("C18.R4", r4), ("C18.R5", r5), ("C18.R6", r6)]
+
+def r7(ctx):
+    """Contrast / transform helper objects are values: their methods never assign to `self` outside construction (a user-held contrasts object
+    is shared by every build that uses it)."""
+    P = ctx.project
+    n = 0
+    for C in P.classes.values():
+        if C.module.name != "formulaic.transforms.contrasts":
+            continue
+        for name, m in C.methods.items():
+            if name in ("__init__", "__post_init__", "__new__"):
+                continue
+            n += 1
+            for x in walk_no_nested(m.node):
+                tg = []
+                if isinstance(x, ast.Assign):
+                    tg = x.targets
+                elif isinstance(x, (ast.AugAssign, ast.AnnAssign)):
+                    tg = [x.target]
+                for t in tg:
+                    b = t
+                    while isinstance(b, (ast.Attribute, ast.Subscript)):
+                        if isinstance(b, ast.Attribute) and isinstance(b.value, ast.Name) and b.value.id == "self":
+                            ctx.fail("C18.R7", f"{C.qualname.split('.')[-1]}.{name} does not modify the contrasts object", m.module.line(x), ctx.construct(m, x),
+                                     f"`{stmt_text(x, 80)}` stores into the (possibly user-held, shared) contrasts object: a later build with other levels inherits the value")
+                            break
+                        b = b.value
+    ctx.look(n)
+    ctx.floor("C18.R7", n, 30, "methods of contrast classes")
+    ctx.ok("C18.R7", f"no method of the contrast classes assigns to self outside construction ({n} methods)", "formulaic/transforms/contrasts.py")
+
+
+RULES = [("C18.R1", r1), ("C18.R2", r2), ("C18.R3", r3), ("C18.R4", r4), ("C18.R5", r5), ("C18.R6", r6), ("C18.R7", r7)]
